@@ -23,7 +23,9 @@ REL = 1e-12
 
 def bounds(tier):
     cfgs = s1.configs(tier)
-    return {"configurations": len(cfgs), "shapes(N,H,k)": sorted({(c["N"], c["H"], c["k"]) for c in cfgs}, key=str)}
+    ut = s1.ulp_tie_configs(tier)
+    return {"configurations": len(cfgs), "shapes(N,H,k)": sorted({(c["N"], c["H"], c["k"]) for c in cfgs}, key=str),
+            "ulp_tie_family": f"{len(ut)} methods, N={ut[0]['N']}, t={ut[0]['t']}, {len(ut[0]['vals'])} values, all samples to length {ut[0]['D']}"}
 
 
 def veq(a, b):
